@@ -552,8 +552,11 @@ class Producer(object):
                 fail_on_error=False,
             )
             self._req_attempts += 1
-            # add our handlers
-            d.addBoth(self._handle_send_response, payloadsByTopicPart, deferredsByTopicPart)
+            # add our handlers. From here on only the payloads being retried
+            # are outstanding: the others were already acknowledged, and must
+            # not be sent again should this attempt fail as a whole.
+            retried = {tp: p for tp, p in payloadsByTopicPart.items() if p in payloads}
+            d.addBoth(self._handle_send_response, retried, deferredsByTopicPart)
             return d
 
         def _cancel_retry(failure, dc):
